@@ -42,13 +42,18 @@ def run(ctx):
         table = c06.k1(ctx, cfg, fs)
         ctx.guard(c06.k3, ctx, cfg, fs, table)
         ctx.guard(c06.k5, ctx, cfg, fs)
+        ctx.guard(c06.loop_conditions, ctx, cfg, fs)
+        ctx.guard(consumers.ledger_callers, ctx, cfg, fs, 'P.primitives')
         ctx.guard(c06.len_threaded, ctx, cfg, fs)
         ctx.guard(parsecon, ctx, cfg, fs)
         ctx.guard(c12.walker_rules, ctx, cfg, fs, 'R.registry', {'collect_shorts': c12.WALKERS['collect_shorts']})
         ctx.guard(c08.keep_only, ctx, lambda: c02.lossless(ctx, cfg, fs), lambda o: 'parse_os_str' in o.key or o.key.startswith('value-path'), 'L.lossless')
-        ctx.guard(c08.keep_only, ctx, lambda: c02.boundaries(ctx, cfg, fs), lambda o: 'width-table' in o.key or 'cluster-test' in o.key or 'byte-length' in o.key, 'B.boundaries')
+        ctx.guard(c08.keep_only, ctx, lambda: c02.boundaries(ctx, cfg, fs), lambda o: 'width-table' in o.key or 'cluster-test' in o.key or 'byte-length' in o.key or 'value-iff-equals' in o.key, 'B.boundaries')
         import c09
         ctx.guard(c08.keep_only, ctx, lambda: c09.tokenizer(ctx, cfg, fs), lambda o: 'marker-' in o.key, 'T.separator')
+        ctx.guard(c08.first_name_only, ctx, cfg, fs, 'N.name-once')
+        ctx.guard(c08.keep_only, ctx, lambda: c08.name_first(ctx, cfg, fs), lambda o: 'records-position' in o.key, 'N.name-once')
+        ctx.guard(consumers.accept_sets, ctx, cfg, fs, 'A.accept-sets')
     ctx.guard(shapes.construct_shapes, ctx, 'W.construct')
 
 def parsecon(ctx, cfg, fs):
